@@ -547,12 +547,17 @@ class Lib:
         var, dom = self.iter_domain(I, it, g.target, sc)
         if len(var) != 1 or var[0].sort() != z3.IntSort():
             # comprehension over a set / the items of a dict: every element exactly once, in an order the contract cannot rely on
-            if len(var) != 1 or g.ifs:
-                raise Undecided('filtered list comprehension over an unordered iterable')
+            if len(var) != 1:
+                raise Undecided('list comprehension over an unordered iterable with a structured key')
             k = var[0]
             I.path.nofork += 1
             I.path.guards.append(dom)
             try:
+                # a filter selects a subset: the same "each selected element exactly once, order unspecified" encoding over dom and the filter
+                conds = [_b(I.truth(I.eval(c, sc))) for c in g.ifs]
+                if conds:
+                    dom = z3.And(dom, *conds)
+                    I.path.guards[-1] = dom
                 e = I.eval(node.elt, sc)
             finally:
                 I.path.guards.pop()
